@@ -167,6 +167,8 @@ def _build(cube, kw):
             a0.compromise(nodes[i])
     if kw.get('ep', True):
         a0.entry_points = list(a0.reached_attack_steps)
+    elif kw.get('ep2', False):
+        a0.entry_points = list(nodes)         # entry points the attacker has not (or no longer) reached
     if kw.get('rb', True):
         a1.compromise(nodes[n - 1])
     if kw.get('rm', False):
@@ -234,9 +236,9 @@ def queries(tier):
     if tier == 'quick':
         n = 2
         ebits = ['e%d%d' % (i, j) for i in range(n) for j in range(n)]
-        ps = [I('tg0', 0, 2), I('ex0', 0, 2), I('tt0', 0, 2), B('r0'), B('r1'), B('ep'), B('rm'), B('swap')] + [B(e) for e in ebits]
+        ps = [I('tg0', 0, 2), I('ex0', 0, 2), I('tt0', 0, 2), B('r0'), B('r1'), B('ep'), B('ep2'), B('rm'), B('swap')] + [B(e) for e in ebits]
         qs.append(Query(name='struct', body=body_struct, params=ps, cubes=[{'n': n}], split=['tg0', 'ex0'],
-                        pre=['%s <= 2' % ' + '.join(ebits), 'not rm or (r0 and not r1)', 'not swap or (r1 and not rm and %s == 0)' % ' + '.join(ebits)], timeout=400,
+                        pre=['%s <= 2' % ' + '.join(ebits), 'not rm or (r0 and not r1)', 'not swap or (r1 and not rm and %s == 0)' % ' + '.join(ebits), 'not ep2 or (not ep and not rm and not swap)'], timeout=400,
                         witnesses=[({'n': n}, {p.name: (1 if p.typ == 'int' else True) for p in ps})],
                         bound='2 nodes; node 0 with every tag/extras/TTC pick (%d combos), node 1 rich; <= 2 edges incl. self-loops; '
                               'two attackers, every reached set of a0, entry points on/off' % 27))
@@ -248,7 +250,7 @@ def queries(tier):
     else:
         n = 3
         ebits = ['e%d%d' % (i, j) for i in range(n) for j in range(n)]
-        ps = [I('tg0', 0, 2), I('ex0', 0, 2), I('tt0', 0, 2), I('tt1', 0, 2), B('v0'), B('r0'), B('r1'), B('r2'), B('ep'), B('rb'), B('rm'), B('swap')] + \
+        ps = [I('tg0', 0, 2), I('ex0', 0, 2), I('tt0', 0, 2), I('tt1', 0, 2), B('v0'), B('r0'), B('r1'), B('r2'), B('ep'), B('ep2'), B('rb'), B('rm'), B('swap')] + \
              [B(e) for e in ebits]
         qs.append(Query(name='struct', body=body_struct, params=ps, cubes=[{'n': n}], split=['tg0', 'ex0', 'tt0', 'tt1'],
                         pre=['%s <= 2' % ' + '.join(ebits)], timeout=1700,
